@@ -11,11 +11,11 @@ CHECKS = {
          "DESIGN.md §4 C01"),
  "C02": ("generated programs with records/enums/options/lists/strings/host types; copy-then-mutate statements; differential against a reference interpreter with value semantics for aggregates and shared lists",
          "Exploration: generated type declarations (generic, nested, every field size class incl. zero-sized and odd-sized host types) and programs that copy, mutate, compare, match and return them; outputs compared with the reference interpreter.",
-         "Trusts the reference interpreter; nesting depth <= 3, <= 6 fields; all-zero-sized records excluded while C02-F3 is open.",
+         "Trusts the reference interpreter; nesting depth <= 3, <= 6 fields; script constants of generated programs hold no lists; a list holding a NaN compared with itself is treated as unspecified.",
          "DESIGN.md §4 C02"),
  "C03": ("generated programs with owning values in every position; invariants over each call: tracked live-set unchanged, no double drop / drop of garbage / use after drop, zero net heap bytes (counting allocator)",
          "Exploration: ownership-heavy generated programs run on inputs that steer every branch; after each call the drop-tracked host types and the per-thread allocation counter must balance.",
-         "Balance is checked per call, not per statement; zero-sized clone type excluded while C03-F3 is open; harness global allocator wrapper trusted.",
+         "Balance is checked per call, not per statement; harness global allocator wrapper (which also poisons freed memory) trusted.",
          "DESIGN.md §4 C03"),
  "C04": ("generated script signatures (exact / one-step near miss / random over the full type grammar) x a macro-built catalogue of ~250 Rust function types; structural-equality predicate as oracle; handles never called",
          "Exploration: every generated function is requested under every catalogue type; get_function must succeed iff the descriptors are structurally equal, incl. filtermaps with accept-only / reject-only / both / neither payloads and unknown or generated names.",
@@ -29,9 +29,9 @@ CHECKS = {
          "Exploration: compile() must return a package or a report for every generated text; the report must render with and without colour and every cited location must lie inside its file on char boundaries; panics, aborts and stack overflows are observed through worker isolation.",
          "Inputs <= 16 KiB and bracket depth <= 64; hangs are reported as inconclusive by a watchdog; locations come from hook verif_locations.",
          "DESIGN.md §4 C06"),
- "C07": ("one type-breaking edit (catalogue of 26 kinds) on a well-typed generated program; must be rejected with a type error",
+ "C07": ("three families: one type-breaking edit (32 kinds) on a well-typed generated program; a generator-driven wrong-typed value at one typed site; a self-contained ill-typed snippet (37 families) planted in a well-typed program; each must be rejected with a type error",
          "Exploration: for each generated well-typed program one edit that is ill-typed by construction is applied at a random applicable site; compile must return a report starting with `Error: Type error`.",
-         "Single edits only; soundness of the catalogue argued per edit in DESIGN.md.",
+         "Single defects only; soundness of the catalogue argued per edit in DESIGN.md; programs are generated without shadowing so that the scope edits stay ill-typed.",
          "DESIGN.md §4 C07"),
  "C08": ("generated programs with uniquely tagged effect markers at every expression position; ordered host-call log compared with the reference interpreter",
          "Exploration: the ordered sequence of (marker, arguments) host calls of each generated program equals the sequence obtained by left-to-right, short-circuit, guard-order evaluation in the reference interpreter.",
@@ -42,7 +42,7 @@ CHECKS = {
          "Use-after-free of still-mapped JIT memory can go unnoticed (worker isolation catches crashes only); liveness tracked per tag.",
          "DESIGN.md §4 C11"),
  "C12": ("multi-threaded stress of generated programs (2-8 threads x 50-200 calls on cloned handles, concurrent compile/drop threads) against the single-threaded results and host-call logs, with tracked-value accounting after join; plus rustc accept/reject probes of small embedding programs that try to share !Sync state",
-         "Exploration: for each generated program every concurrent call returned the single-threaded value and log and the tracked-value balance was zero after join; each of nine probe programs is accepted or rejected by rustc as the property requires.",
+         "Exploration: for each generated program every concurrent call returned the single-threaded value and log and the tracked-value balance was zero after join; each of eleven probe programs is accepted or rejected by rustc as the property requires.",
          "The OS owns the schedule (sampled interleavings only); the probe list is finite and hand-written.",
          "DESIGN.md §4 C12"),
  "C13": ("generated module trees with shared name pools and probe functions holding references of every form; independent resolver (model) vs compiled behaviour; in-memory vs on-disk differential; get_function by module path",
@@ -55,9 +55,9 @@ CHECKS = {
          "DESIGN.md §4 C14"),
  "C15": ("model-based stateful testing: operation histories (one chunk per operation, shrunk as a sequence) over aliased list handles, issued through the Rust List API or compiled script functions, compared step by step with a shared-vector model; tracked element accounting",
          "Exploration: random histories of up to 60 operations for 8 element types incl. zero-sized and drop-tracked ones; every result, the operands of concat and the number of live tracked elements are compared with the model after each step.",
-         "Single-threaded; capacity only checked as >= len; Rust-side contains/index on transformed element types excluded while C15-F2 is open.",
+         "Single-threaded; capacity only checked as >= len.",
          "DESIGN.md §4 C15"),
- "C16": ("two engines: (1) controlled-schedule exploration: real threads run list operations one at a time under a baton scheduler driven by generated choices (hook verif::sched), with a brute-force linearizability check against the shared-vector model; (2) free-running stress: real threads race on fresh lists of drop-tracked elements at capacity boundaries, freed memory is poisoned by the harness allocator so that stale reads are seen as use of garbage",
+ "C16": ("three engines (the third: free-running threads on script-made lists of plain data: stale reads through get, concatenation during two ordered pushes, self-concatenation during pushes): (1) controlled-schedule exploration: real threads run list operations one at a time under a baton scheduler driven by generated choices (hook verif::sched), with a brute-force linearizability check against the shared-vector model; (2) free-running stress: real threads race on fresh lists of drop-tracked elements at capacity boundaries, freed memory is poisoned by the harness allocator so that stale reads are seen as use of garbage",
          "Exploration: generated (configuration, schedule) pairs for 2-3 threads x up to 3 operations on 2 shared lists at capacity boundaries, each observed history must admit a linearization; generated (mutator, readers, list size, comparison cost) configurations raced for 4-15 rounds each, no stale read, consistent results, final contents a permutation of the expected elements.",
          "Scheduler engine: interleavings only at hook granularity. Free-running engine: the OS owns the schedule; a window of a few instructions may be hit only in the thorough tier.",
          "DESIGN.md §4 C16"),
